@@ -37,7 +37,7 @@ def one(name):
     elif m:
         verdict = "detected (no-failing-input-found)" if "no-failing-input-found" in m.group(1) else "detected (concrete replay)"
     elif p.returncode == 0:
-        verdict = "MISSED"
+        verdict = "passed (harmless rewrite: expected)" if ("harmless" in name or meta.get("harmless")) else "MISSED"
     else:
         verdict = "error rc=%d" % p.returncode
     why = ""
